@@ -468,6 +468,8 @@ struct Parsed {
     inner: Vec<(i64, Option<Expect>, String)>,
     end: End,
     nesting_error: Option<String>,
+    /// first disagreement between an item and the reader's own accessors (player_pos / input / cids)
+    accessor_error: Option<String>,
 }
 
 fn parse(cb: &mut FragCb, recycled: Option<&mut th::Buffer>) -> Result<Parsed, PanicInfo> {
@@ -483,10 +485,11 @@ fn parse(cb: &mut FragCb, recycled: Option<&mut th::Buffer>) -> Result<Parsed, P
         let mut items = Vec::new();
         let mut inner = Vec::new();
         let mut nesting_error = None;
+        let mut accessor_error: Option<String> = None;
         let mut reader = match th::Reader::new(cb, &mut buffer) {
             Ok((_header, r)) => r,
             Err(e) => {
-                return Parsed { items, inner, end: End::Err(format!("header: {}", err_name(&e))), nesting_error };
+                return Parsed { items, inner, end: End::Err(format!("header: {}", err_name(&e))), nesting_error, accessor_error };
             }
         };
         let mut cur_tick: Option<i64> = None;
@@ -531,6 +534,21 @@ fn parse(cb: &mut FragCb, recycled: Option<&mut th::Buffer>) -> Result<Parsed, P
                                 th::Item::Input(i) => Some(Expect::Input { cid: i.cid, input: i.input }),
                                 _ => None,
                             };
+                            let _ = reader.cids();
+                            if accessor_error.is_none() {
+                                // the reader's accessors are a second view of the running sums: they must agree with the item just produced
+                                let cids = reader.cids();
+                                // cids() is a half-open i32 range: client id i32::MAX cannot be inside it
+                                let in_cids = |c: i32| c == i32::MAX || cids.contains(&c);
+                                let bad = match other {
+                                    th::Item::PlayerNew(p) => (!in_cids(p.cid) || reader.player_pos(p.cid).map(|q| (q.x, q.y)) != Some((p.pos.x, p.pos.y))).then(|| format!("after {} player_pos({}) = {:?}, cids() = {:?}", s, p.cid, reader.player_pos(p.cid).map(|q| (q.x, q.y)), cids)),
+                                    th::Item::PlayerChange(p) => (!in_cids(p.cid) || reader.player_pos(p.cid).map(|q| (q.x, q.y)) != Some((p.pos.x, p.pos.y))).then(|| format!("after {} player_pos({}) = {:?}, cids() = {:?}", s, p.cid, reader.player_pos(p.cid).map(|q| (q.x, q.y)), cids)),
+                                    th::Item::PlayerOld(p) => (!in_cids(p.cid) || reader.player_pos(p.cid).is_some()).then(|| format!("after {} player_pos({}) = {:?}, cids() = {:?}", s, p.cid, reader.player_pos(p.cid).map(|q| (q.x, q.y)), cids)),
+                                    th::Item::Input(i) => (!in_cids(i.cid) || reader.input(i.cid) != Some(i.input)).then(|| format!("after {} input({}) = {:?}, cids() = {:?}", s, i.cid, reader.input(i.cid), cids)),
+                                    _ => None,
+                                };
+                                accessor_error = bad;
+                            }
                             match cur_tick {
                                 Some(t) => inner.push((t, ex, s.clone())),
                                 None => {
@@ -553,7 +571,7 @@ fn parse(cb: &mut FragCb, recycled: Option<&mut th::Buffer>) -> Result<Parsed, P
         if end == End::Finished && cur_tick.is_some() && nesting_error.is_none() {
             nesting_error = Some(format!("stream finished inside tick {:?} (no TickEnd)", cur_tick));
         }
-        Parsed { items, inner, end, nesting_error }
+        Parsed { items, inner, end, nesting_error, accessor_error }
     })
 }
 
@@ -819,6 +837,9 @@ impl Engine for ThEngine {
                     (None, w) => return Some(v("item-kind-differs", &[("want", "player/input")], format!("message #{}: reader reports {} but the stream holds {:?}", i, gs.chars().take(60).collect::<String>(), w))),
                     _ => {}
                 }
+            }
+            if let Some(e) = &reference.accessor_error {
+                return Some(v("accessor-differs-from-items", &[], format!("player_pos / input / cids disagree with the item stream: {}", e.chars().take(300).collect::<String>())));
             }
             ctx.count("probe_valid_stream_checked");
             if bytes.len() > 8192 {
